@@ -178,6 +178,10 @@ func (e *FEnc) call(st *State, in ssa.Instruction, cc *ssa.CallCommon, res ssa.V
 	}
 afterPublish:
 	e.atCall(st, in, name, args, recv)
+	if st.called == nil {
+		st.called = map[string]string{}
+	}
+	st.called[name] = "true"
 
 	fn := cc.StaticCallee()
 	var fc *FuncContract
